@@ -40,19 +40,72 @@ pub fn run_dir() -> PathBuf {
 }
 static SEQ: AtomicUsize = AtomicUsize::new(0);
 
-/// Is there a listening unix socket bound to `path`?  (kernel's view: /proc/net/unix, flag
-/// `__SO_ACCEPTCON`.)  Used only to synchronise with the server's start and stop.
-pub fn is_listening(path: &Path) -> bool {
+/// Inodes of the listening unix sockets bound to `path` (kernel's view: /proc/net/unix, flag
+/// `__SO_ACCEPTCON`).  Used only to synchronise with the server's start, stop and re-listen.
+/// Line format: `Num RefCount Protocol Flags Type St Inode Path`; the inode is padded with spaces and
+/// the path may contain spaces, so the first seven fields are cut off and the rest is the path.
+pub fn listeners(path: &Path) -> Vec<u64> {
     let p = path.to_string_lossy();
-    std::fs::read_to_string("/proc/net/unix")
-        .map(|s| {
-            s.lines().any(|l| {
-                let mut it = l.split_whitespace();
-                let flags = it.nth(3);
-                flags == Some("00010000") && it.last() == Some(&*p)
-            })
-        })
-        .unwrap_or(false)
+    let mut out = Vec::new();
+    if let Ok(s) = std::fs::read_to_string("/proc/net/unix") {
+        for l in s.lines() {
+            let mut rest = l;
+            let mut fields = [""; 7];
+            let mut ok = true;
+            for f in fields.iter_mut() {
+                rest = rest.trim_start_matches(' ');
+                match rest.find(' ') {
+                    Some(i) => {
+                        *f = &rest[..i];
+                        rest = &rest[i..];
+                    }
+                    None => {
+                        *f = rest;
+                        rest = "";
+                    }
+                }
+                if f.is_empty() {
+                    ok = false;
+                    break;
+                }
+            }
+            if !ok {
+                continue;
+            }
+            let name = rest.strip_prefix(' ').unwrap_or(rest);
+            if fields[3] == "00010000" && name == &*p {
+                if let Ok(i) = fields[6].parse() {
+                    out.push(i);
+                }
+            }
+        }
+    }
+    out
+}
+/// Is there an inotify watch (of this process: kvarn_signal's watcher) on the file at `path`?  Read from
+/// /proc/self/fdinfo (`inotify wd:.. ino:<hex> ..`).  The watch is registered right after the bind; a removal of the file in
+/// that instant would go unnoticed, and that window is not part of the property: the harness waits for the watch.
+pub fn watched(path: &Path) -> bool {
+    use std::os::unix::fs::MetadataExt;
+    let ino = match std::fs::symlink_metadata(path) {
+        Ok(m) => format!("ino:{:x} ", m.ino()),
+        Err(_) => return false,
+    };
+    let dir = match std::fs::read_dir("/proc/self/fdinfo") {
+        Ok(d) => d,
+        Err(_) => return true,
+    };
+    for e in dir.flatten() {
+        if let Ok(text) = std::fs::read_to_string(e.path()) {
+            if text.lines().any(|l| l.starts_with("inotify ") && l.contains(&ino)) {
+                return true;
+            }
+        }
+    }
+    false
+}
+pub fn is_listening(path: &Path) -> bool {
+    !listeners(path).is_empty()
 }
 pub async fn wait_listening(path: &Path, want: bool, max: Duration) -> bool {
     let t0 = Instant::now();
@@ -90,12 +143,42 @@ pub struct Server {
     /// opens the gate of `t-slow` (concurrent sessions only)
     pub gate: tokio::sync::watch::Sender<bool>,
 }
+/// Which plugins the instance has besides the `t-*` ones.
+#[derive(Clone, Copy, PartialEq, Eq)]
+pub enum Kind {
+    /// sequential sessions: `reload` and `wait` replaced by plugins that answer at once
+    Seq,
+    /// concurrent sessions: kvarn's own `wait`, the gated `t-slow`, `reload` replaced
+    Conc,
+    /// like `Conc`, with kvarn's own `reload` (only in a child process whose arg0 is harmless)
+    Reload,
+}
 impl Server {
     pub async fn start() -> Option<Server> {
-        Self::start_with(false).await
+        Self::start_kind(Kind::Seq).await
     }
     /// `conc`: the server of the concurrent sessions keeps kvarn's own `wait` and has `t-slow`.
     pub async fn start_with(conc: bool) -> Option<Server> {
+        Self::start_kind(if conc { Kind::Conc } else { Kind::Seq }).await
+    }
+    /// Start-up is retried (a fresh directory each time): on a saturated machine the spawned listener
+    /// task may not have bound its socket within the bounded wait.  `None` = the harness could not
+    /// start an instance (reported as `(L (N 93))`, a harness outcome, not a verdict about kvarn).
+    pub async fn start_kind(kind: Kind) -> Option<Server> {
+        for attempt in 0..3u64 {
+            if let Some(s) = Self::start_once(kind).await {
+                return Some(s);
+            }
+            tokio::time::sleep(Duration::from_millis(300 * (attempt + 1))).await;
+        }
+        None
+    }
+    async fn start_once(kind: Kind) -> Option<Server> {
+        Self::start_once_with(kind, None).await
+    }
+    /// `port`: the instance also serves this port (so that the plugins see a host collection)
+    pub async fn start_once_with(kind: Kind, port: Option<kvarn::PortDescriptor>) -> Option<Server> {
+        let conc = kind != Kind::Seq;
         let dir = run_dir().join(format!("s{}", SEQ.fetch_add(1, Ordering::SeqCst)));
         std::fs::create_dir_all(&dir).ok()?;
         let path = dir.join("ctl.sock");
@@ -127,8 +210,8 @@ impl Server {
                 "t-count",
                 mk(move |_| PluginResponse::ok(count.fetch_add(1, Ordering::SeqCst).to_string())),
             )
-            .add_plugin("", mk(|a| PluginResponse::ok(args_data(&a))))
-            .add_plugin("reload", mk(|_| PluginResponse::ok_empty()));
+            .add_plugin("", mk(|a| PluginResponse::ok(args_data(&a))));
+        let cfg = if kind == Kind::Reload { cfg } else { cfg.add_plugin("reload", mk(|_| PluginResponse::ok_empty())) };
         let (gate, gate_rx) = tokio::sync::watch::channel(false);
         let cfg = if conc {
             let slow: Plugin = Box::new(move |args, _ports, _shutdown, _plugins| {
@@ -146,9 +229,15 @@ impl Server {
         } else {
             cfg.add_plugin("wait", mk(|_| PluginResponse::ok_empty()))
         };
+        let cfg = match port {
+            Some(p) => cfg.bind(p),
+            None => cfg,
+        };
         let manager = cfg.execute().await;
         // the listener is bound inside a spawned task: wait until the kernel shows it
         if !wait_listening(&path, true, Duration::from_secs(10)).await {
+            manager.shutdown();
+            let _ = std::fs::remove_dir_all(&dir);
             return None;
         }
         Some(Server { path, dir, close_requested, manager, gate })
@@ -162,7 +251,10 @@ impl Server {
         }
     }
     pub async fn send(&self, req: Vec<u8>) -> X {
-        let r = tokio::time::timeout(Duration::from_secs(10), send_to(req, &self.path)).await;
+        self.send_within(req, Duration::from_secs(10)).await
+    }
+    pub async fn send_within(&self, req: Vec<u8>, limit: Duration) -> X {
+        let r = tokio::time::timeout(limit, send_to(req, &self.path)).await;
         let x = match r {
             Ok(Response::Data(d)) => X::L(vec![X::N(0), X::B(d)]),
             Ok(Response::NotFound) => X::L(vec![X::N(1)]),
@@ -188,16 +280,43 @@ fn session(x: &X) -> X {
         _ => return X::bad(),
     };
     runtime().block_on(async move {
-        let server = match Server::start().await {
-            Some(s) => s,
-            None => return X::L(vec![X::N(93)]),
-        };
-        let mut out = Vec::with_capacity(reqs.len());
-        for r in reqs {
-            out.push(server.send(r).await);
+        // A bounded wait that ran out decides the verdict: before it does, the whole session is run once
+        // more on a fresh instance with three times the wait (a saturated machine must not look like a
+        // wedged socket; a socket that really does not answer does not answer the second time either).
+        let mut limit = Duration::from_secs(10);
+        loop {
+            let server = match Server::start().await {
+                Some(s) => s,
+                None => return X::L(vec![X::N(93)]),
+            };
+            let mut out = Vec::with_capacity(reqs.len());
+            let mut ran_out = false;
+            for r in &reqs {
+                let x = server.send_within(r.clone(), limit).await;
+                if x == X::L(vec![X::N(3)]) {
+                    ran_out = true;
+                    out.push(x);
+                    break;
+                }
+                out.push(x);
+            }
+            if ran_out {
+                server.manager.shutdown();
+                wait_listening(&server.path, false, Duration::from_secs(2)).await;
+                let _ = std::fs::remove_dir_all(&server.dir);
+                if limit < Duration::from_secs(30) {
+                    limit = Duration::from_secs(30);
+                    continue;
+                }
+                // the rest of the session was not run: say so in the shape the differ expects
+                while out.len() < reqs.len() {
+                    out.push(X::L(vec![X::N(3)]));
+                }
+            } else {
+                server.stop().await;
+            }
+            return X::L(out);
         }
-        server.stop().await;
-        X::L(out)
     })
 }
 
@@ -206,7 +325,9 @@ fn session(x: &X) -> X {
 //
 // `ctl.conc`: `(L step ...)`, step = `(L (N op) (N conn) [(B bytes)])`:
 //   0 open k | 1 write k bytes | 2 fin k | 3 await k | 4 shutdown | 5 release | 6 drop k |
-//   7 req k bytes (= open, write, fin, await) | 8 send k bytes (= open, write, fin) | 9 peek k
+//   7 req k bytes (= open, write, fin, await) | 8 send k bytes (= open, write, fin) | 9 peek k |
+//   10 unlink the socket file and wait for the re-listen | 11 sleep k ms | 12 exhaust the descriptor table and connect k |
+//   13 release the descriptors | 14 has the instance finished shutting down?
 // Output: one `(L (N k) reply)` per await / req / peek step, reply = `(L (N 0) (B data))`,
 // `(L (N 1))` connect refused / no listener, `(L (N 2))` I/O error, `(L (N 3))` nothing within the
 // bounded wait (`KV_C19_WAIT_MS`, default 6000), `(L (N 4))` nothing yet (peek), `(L (N 5))` no such connection.
@@ -231,6 +352,8 @@ struct Conc {
     wait: Duration,
     /// bounded waits that ran out; after 10 of them the rest of the script is not executed
     ran_out: u32,
+    /// descriptors that only occupy the process's descriptor table (step 12 / 13)
+    fill: Vec<std::fs::File>,
 }
 impl Conc {
     async fn open(&mut self, k: u64) {
@@ -308,86 +431,258 @@ impl Conc {
     }
 }
 
-fn conc(x: &X) -> X {
-    let steps = match x.as_l() {
-        Some(l) => l,
-        None => return X::bad(),
-    };
-    let mut script: Vec<(u64, u64, Vec<u8>)> = Vec::with_capacity(steps.len());
+type Script = Vec<(u64, u64, Vec<u8>)>;
+
+fn parse_script(x: &X) -> Option<Script> {
+    let steps = x.as_l()?;
+    let mut script: Script = Vec::with_capacity(steps.len());
     for s in steps {
         let l = match s.as_l() {
             Some(l) if l.len() >= 2 => l,
-            _ => return X::bad(),
+            _ => return None,
         };
         let (op, k) = match (&l[0], &l[1]) {
             (X::N(op), X::N(k)) => (*op as u64, *k as u64),
-            _ => return X::bad(),
+            _ => return None,
         };
         let b = match l.get(2) {
-            Some(b) => match b.as_b() {
-                Some(b) => b.to_vec(),
-                None => return X::bad(),
-            },
+            Some(b) => b.as_b()?.to_vec(),
             None => Vec::new(),
         };
+        if op > 14 {
+            return None;
+        }
         script.push((op, k, b));
     }
-    runtime().block_on(async move {
-        let server = match Server::start_with(true).await {
-            Some(s) => s,
-            None => return X::L(vec![X::N(93)]),
-        };
-        let mut c = Conc { server, conns: Default::default(), wait: Duration::from_millis(wait_ms()), ran_out: 0 };
-        let mut out = Vec::new();
-        for (op, k, b) in script {
-            if c.ran_out >= 10 {
-                break;
-            }
-            match op {
-                0 => c.open(k).await,
-                1 => c.write(k, &b).await,
-                2 => c.fin(k).await,
-                3 => {
-                    let w = c.wait;
-                    out.push(c.read(k, w, 3).await)
-                }
-                4 => {
-                    c.server.manager.shutdown();
-                    wait_listening(&c.server.path, false, Duration::from_secs(10)).await;
-                }
-                5 => {
-                    let _ = c.server.gate.send(true);
-                }
-                6 => {
-                    c.conns.remove(&k);
-                }
-                7 => {
-                    c.open(k).await;
-                    c.write(k, &b).await;
-                    c.fin(k).await;
-                    let w = c.wait;
-                    out.push(c.read(k, w, 3).await)
-                }
-                8 => {
-                    c.open(k).await;
-                    c.write(k, &b).await;
-                    c.fin(k).await;
-                }
-                9 => out.push(c.read(k, Duration::from_millis(30), 4).await),
-                _ => return X::bad(),
-            }
+    Some(script)
+}
+
+/// Runs the script once against a fresh instance.  `None`: no instance could be started.
+/// Otherwise the outputs and the number of bounded waits that ran out.
+async fn run_script(script: &Script, kind: Kind, wait: Duration) -> Option<(Vec<X>, u32)> {
+    let server = Server::start_kind(kind).await?;
+    let mut c = Conc { server, conns: Default::default(), wait, ran_out: 0, fill: Vec::new() };
+    let mut out = Vec::new();
+    for (op, k, b) in script {
+        let (op, k) = (*op, *k);
+        if c.ran_out >= 10 {
+            break;
         }
-        c.conns.clear();
-        if c.ran_out > 0 {
-            // the socket does not answer: do not ask it to shut down
-            c.server.manager.shutdown();
-            wait_listening(&c.server.path, false, Duration::from_secs(2)).await;
-            let _ = std::fs::remove_dir_all(&c.server.dir);
-        } else {
-            c.server.stop().await;
+        match op {
+            0 => c.open(k).await,
+            1 => c.write(k, b).await,
+            2 => c.fin(k).await,
+            3 => {
+                let w = c.wait;
+                out.push(c.read(k, w, 3).await)
+            }
+            4 => {
+                c.server.manager.shutdown();
+                wait_listening(&c.server.path, false, Duration::from_secs(10)).await;
+            }
+            5 => {
+                let _ = c.server.gate.send(true);
+            }
+            6 => {
+                c.conns.remove(&k);
+            }
+            7 => {
+                c.open(k).await;
+                c.write(k, b).await;
+                c.fin(k).await;
+                let w = c.wait;
+                out.push(c.read(k, w, 3).await)
+            }
+            8 => {
+                c.open(k).await;
+                c.write(k, b).await;
+                c.fin(k).await;
+            }
+            9 => out.push(c.read(k, Duration::from_millis(30), 4).await),
+            // the socket FILE is removed (a tmp cleaner, another program): kvarn_signal's watcher notices it and the
+            // accept loop binds the path again.  6 = a new listening socket is bound to the path, 7 = it is not
+            // (within 10 s; at once when nobody listened before).
+            10 => {
+                let before = listeners(&c.server.path);
+                let mut ok = false;
+                if !before.is_empty() {
+                    let t0 = Instant::now();
+                    while !watched(&c.server.path) && t0.elapsed() < Duration::from_secs(5) {
+                        tokio::time::sleep(Duration::from_millis(2)).await;
+                    }
+                }
+                if !before.is_empty() && std::fs::remove_file(&c.server.path).is_ok() {
+                    let t0 = Instant::now();
+                    while t0.elapsed() < Duration::from_secs(10) {
+                        if listeners(&c.server.path).iter().any(|i| !before.contains(i)) && c.server.path.exists() {
+                            ok = true;
+                            break;
+                        }
+                        tokio::time::sleep(Duration::from_millis(5)).await;
+                    }
+                }
+                out.push(X::L(vec![X::N(k.into()), X::L(vec![X::N(if ok { 6 } else { 7 })])]));
+            }
+            // a client that takes its time
+            11 => tokio::time::sleep(Duration::from_millis(k.min(60_000))).await,
+            // The process runs out of file descriptors (other connections, files): every free descriptor is taken
+            // but one, which connection k's own socket uses; connect() succeeds (the connection waits in the
+            // listener's backlog) and the server's accept() fails with EMFILE.
+            12 => {
+                while c.fill.len() < 4_000_000 {
+                    match std::fs::File::open("/dev/null") {
+                        Ok(f) => c.fill.push(f),
+                        Err(_) => break,
+                    }
+                }
+                c.fill.pop();
+                let conn = match std::os::unix::net::UnixStream::connect(&c.server.path) {
+                    Ok(s) => match s.set_nonblocking(true).and_then(|_| UnixStream::from_std(s)) {
+                        Ok(s) => Conn::Open(s, Vec::new()),
+                        Err(_) => Conn::Failed,
+                    },
+                    Err(e) => match e.kind() {
+                        std::io::ErrorKind::NotFound | std::io::ErrorKind::ConnectionRefused => Conn::Refused,
+                        _ => Conn::Failed,
+                    },
+                };
+                c.conns.insert(k, conn);
+                // the accept loop runs into the error now
+                tokio::time::sleep(Duration::from_millis(400)).await;
+            }
+            // the descriptors are available again
+            13 => {
+                c.fill.clear();
+                tokio::time::sleep(Duration::from_millis(400)).await;
+            }
+            // has the instance finished shutting down (`Manager::wait`)?  8 = yes, 9 = not within the bounded wait
+            14 => {
+                let w = c.wait;
+                let done = tokio::time::timeout(w, c.server.manager.wait()).await.is_ok();
+                if !done {
+                    c.ran_out += 1;
+                    c.wait = Duration::from_millis(400);
+                }
+                out.push(X::L(vec![X::N(k.into()), X::L(vec![X::N(if done { 8 } else { 9 })])]));
+            }
+            _ => {}
         }
-        X::L(out)
-    })
+    }
+    c.fill.clear();
+    c.conns.clear();
+    if c.ran_out > 0 {
+        // the socket does not answer: do not ask it to shut down
+        c.server.manager.shutdown();
+        wait_listening(&c.server.path, false, Duration::from_secs(2)).await;
+        let _ = std::fs::remove_dir_all(&c.server.dir);
+    } else {
+        c.server.stop().await;
+    }
+    Some((out, c.ran_out))
+}
+
+/// A bounded wait that ran out decides the verdict: before it does, the whole script is run once more on a
+/// fresh instance with three times the wait, and the second run is what is reported (a saturated machine must
+/// not look like a wedged socket; a socket that really does not answer does not answer the second time either).
+pub(crate) async fn run_script_checked(script: &Script, kind: Kind) -> X {
+    let wait = Duration::from_millis(wait_ms());
+    match run_script(script, kind, wait).await {
+        None => X::L(vec![X::N(93)]),
+        Some((out, 0)) => X::L(out),
+        Some(_) => match run_script(script, kind, wait * 3).await {
+            None => X::L(vec![X::N(93)]),
+            Some((out, _)) => X::L(out),
+        },
+    }
+}
+
+fn conc(x: &X) -> X {
+    let script = match parse_script(x) {
+        Some(s) => s,
+        None => return X::bad(),
+    };
+    runtime().block_on(async move { run_script_checked(&script, Kind::Conc).await })
+}
+
+/// `ctl.reload`: a script like `ctl.conc`'s against an instance that has kvarn's OWN `reload` plugin.  That plugin
+/// starts `std::env::args_os().next()` again with this process's arguments, so the script runs in a child process
+/// (this binary) whose arg0 is a shell script that only appends a line to `<dir>/reexec.log`.  Output: the script's
+/// outputs followed by `(L (N 99) (N <number of times the "new instance" was started>))`.
+fn reload(x: &X) -> X {
+    if parse_script(x).is_none() {
+        return X::bad();
+    }
+    use std::io::Write;
+    use std::os::unix::fs::PermissionsExt;
+    use std::os::unix::process::CommandExt;
+    let dir = run_dir().join(format!("r{}", SEQ.fetch_add(1, Ordering::SeqCst)));
+    if std::fs::create_dir_all(&dir).is_err() {
+        return X::L(vec![X::N(93)]);
+    }
+    let log = dir.join("reexec.log");
+    let script = dir.join("reexec");
+    let body = format!("#!/bin/sh\necho started >> '{}'\n", log.display());
+    if std::fs::write(&script, body).is_err() || std::fs::set_permissions(&script, std::fs::Permissions::from_mode(0o755)).is_err() {
+        return X::L(vec![X::N(93)]);
+    }
+    let exe = match std::env::current_exe() {
+        Ok(e) => e,
+        Err(_) => return X::L(vec![X::N(93)]),
+    };
+    let mut line = String::from("r ctl.reloadchild ");
+    x.write(&mut line);
+    line.push('\n');
+    let child = std::process::Command::new(exe)
+        .arg0(&script)
+        .env("KV_RUN_DIR", &dir)
+        .stdin(std::process::Stdio::piped())
+        .stdout(std::process::Stdio::piped())
+        .stderr(std::process::Stdio::null())
+        .spawn();
+    let mut child = match child {
+        Ok(c) => c,
+        Err(_) => return X::L(vec![X::N(93)]),
+    };
+    if let Some(mut i) = child.stdin.take() {
+        let _ = i.write_all(line.as_bytes());
+    }
+    let out = match child.wait_with_output() {
+        Ok(o) => o,
+        Err(_) => return X::L(vec![X::N(93)]),
+    };
+    let text = String::from_utf8_lossy(&out.stdout);
+    let res = text.lines().find_map(|l| l.strip_prefix("r ")).and_then(|r| {
+        let mut pos = 0;
+        crate::xval::parse(r.as_bytes(), &mut pos)
+    });
+    // the re-executed "instance" is a shell script that may still be starting: give it a moment
+    // (wait_with_output returned, so every process that inherited the pipe has ended; the loop is for the file system)
+    let count = || std::fs::read_to_string(&log).map(|s| s.lines().count() as u128).unwrap_or(0);
+    let mut started = count();
+    for _ in 0..8 {
+        std::thread::sleep(Duration::from_millis(25));
+        let n = count();
+        if n == started {
+            break;
+        }
+        started = n;
+    }
+    let _ = std::fs::remove_dir_all(&dir);
+    match res {
+        Some(X::L(mut l)) if l.first() != Some(&X::N(93)) => {
+            l.push(X::L(vec![X::N(99), X::N(started)]));
+            X::L(l)
+        }
+        Some(other) => other,
+        None => X::L(vec![X::N(93)]),
+    }
+}
+fn reload_child(x: &X) -> X {
+    let script = match parse_script(x) {
+        Some(s) => s,
+        None => return X::bad(),
+    };
+    runtime().block_on(async move { run_script_checked(&script, Kind::Reload).await })
 }
 
 fn utf8(x: &X) -> X {
@@ -408,6 +703,8 @@ pub fn dispatch(comp: &str, x: &X) -> Option<X> {
     Some(match comp {
         "ctl.session" => session(x),
         "ctl.conc" => conc(x),
+        "ctl.reload" => reload(x),
+        "ctl.reloadchild" => reload_child(x),
         "ctl.utf8" => utf8(x),
         "ctl.utf8enc" => utf8enc(x),
         _ => return None,
